@@ -288,6 +288,44 @@ func verifC08(t *testing.T, constructedOnly bool) {
 			}
 		}()
 	}
+	// type definitions made through Module.NewTypeDef, struct and non-struct kinds in every order of four kinds: the
+	// module lists exactly the types that were given, each once, and prints one definition per name
+	{
+		mk := []func() types.Type{
+			func() types.Type { return types.NewStruct(types.I32) },
+			func() types.Type { return types.NewInt(32) },
+			func() types.Type { return types.NewStruct(types.I8, types.I8) },
+			func() types.Type { return types.NewPointer(types.I8) },
+			func() types.Type { return types.NewArray(2, types.I16) },
+		}
+		for code := 0; code < 5*5*5*5; code++ {
+			cases++
+			m := ir.NewModule()
+			var given []types.Type
+			c := code
+			for k := 0; k < 4; k++ {
+				t := mk[c%5]()
+				c /= 5
+				given = append(given, m.NewTypeDef(fmt.Sprintf("t%d", k), t))
+			}
+			okList := len(m.TypeDefs) == len(given)
+			for k := range given {
+				if okList && m.TypeDefs[k] != given[k] {
+					okList = false
+				}
+			}
+			text := m.String()
+			for k := range given {
+				if n := strings.Count(text, fmt.Sprintf("%%t%d = type ", k)); n != 1 {
+					okList = false
+				}
+			}
+			if !okList {
+				fail("type definitions (kinds code %d): the module does not list the four given types once each, in the order given:\n%s", code, text)
+				break
+			}
+		}
+	}
 	if constructedOnly {
 		fmt.Printf("REPLAY-CASES %d\n", cases)
 		if fails > 0 {
